@@ -1,5 +1,7 @@
 import BB.Proofs.MuxStep
 import BB.Proofs.MuxNeg
+import BB.Proofs.MuxBuild
+import BB.Proofs.MuxSuccess
 /-!
 # C15 - cloned buffers and background tasks
 
@@ -323,5 +325,164 @@ theorem nreach_run : ∀ (acts : List NAct) (s0 s : Neg), NReach s0 → nrun s0 
 example : ∃ s, NReach s ∧ s.remaining = 0 ∧ s.made = [⟨true, 16, 3⟩] :=
   ⟨_, nreach_run [.clone 0, .clone 1, .consume 1 false 65536, .consume 0 true 16, .consume 2 true 65536] _ _
         NReach.init rfl, rfl, rfl⟩
+
+/-!
+# Part B: programs over the decorators
+
+`BufExpr` is the family of programs `base kind | cloneStream e | cloneCopy e |
+withTask e result | withErrorHandler e`; `Method` the consuming methods of the
+`Buffer` interface.  `env.repaired` selects `decorateBuffer` handing digest
+and source on to the decorated clones (`true`) or the code as pinned (`false`).
+-/
+
+/-- Every operation keeps working on every buffer a program can build, also on
+clones of buffers with background tasks: no program and no method panics, and
+`GetSizeBytes` answers the digest's size (or, for a buffer that is in a known
+error state, its error). Stated for the repaired `decorateBuffer`; false of
+the pinned one (`D1_legacy_counterexample`). -/
+theorem C15_programs_total (env : Env) (hr : env.repaired = true) (e : BufExpr) :
+    (∀ m : Method, ∃ o, exec env e m = some o ∧ o.res ≠ .panic) ∧
+    (∃ o, exec env e .getSizeBytes = some o ∧ (o.res = .ok [env.d.length] true ∨ ∃ k, o.res = .err k)) := by
+  obtain ⟨b, k', hb, w⟩ := build_wf env hr e 0
+  refine ⟨fun m => ⟨call b m, by simp only [exec, hb], call_np _ b w m⟩, call b .getSizeBytes, by simp only [exec, hb], ?_⟩
+  rcases getSize_wf _ b w with h | ⟨k, h⟩
+  · left; simp only [call, h]
+  · right; subst h; exact ⟨k, rfl⟩
+
+/-- The minimal failing program on the pinned tree: a stream clone of a buffer
+with a background task has lost its digest; `GetSizeBytes` panics (index out
+of range on the empty digest). With the repair it answers the size. -/
+theorem D1_legacy_counterexample :
+    exec { d := [8, 1], repaired := false }
+      (.cloneStream (.withTask (.base (.chunks .good)) none) true .discard) .getSizeBytes = some MOut.panic ∧
+    (exec { d := [8, 1], repaired := true }
+      (.cloneStream (.withTask (.base (.chunks .good)) none) true .discard) .getSizeBytes).map (·.res)
+      = some (.ok [2] true) := ⟨rfl, rfl⟩
+
+/-- what the task decorator turns a result into: its own error only if the data was fine -/
+def taskRes (o : Out) (r : Option Nat) : Out :=
+  match o with
+  | .ok d s => (match r with | some e => .err e | none => .ok d s)
+  | o => o
+
+/-- A call that consumes a buffer returns only after every background task
+attached to that buffer (through any number of task and error handler
+decorators) has completed: `IntoWriter`, `ReadAt`, `ToProto`, `ToByteSlice`,
+`Discard`, and `Close` of the chunk reader / reader, read or not. -/
+theorem C15_task_ordering (b : Buf) (m : Method) (hm : m.consumes = true) (h : (call b m).res ≠ .panic) :
+    ∀ t ∈ spine b, t ∈ (call b m).waited := call_spine b m hm h
+
+/-- in particular for the buffer `WithTask` returned -/
+theorem C15_task_ordering_top (base : Buf) (dg : Option Nat) (t : Nat) (r : Option Nat) (m : Method)
+    (hm : m.consumes = true) (h : (call (.task base dg t r) m).res ≠ .panic) :
+    t ∈ (call (.task base dg t r) m).waited :=
+  call_spine _ m hm h t (by simp [spine])
+
+/-- A chunk reader reports the end of the stream only after every task below
+it - also those below stream clones - has completed, all without error. -/
+theorem C15_eof_after_tasks (b : Buf) (off : Nat) (hok : (call b (.toChunkReader off true)).res.isOk = true) :
+    ∀ p ∈ taskResults b, p.1 ∈ (call b (.toChunkReader off true)).wTerm ∧ p.2 = none := by
+  intro p hp
+  have := toChunkReader_success b off hok p hp
+  exact ⟨this.1, this.2.2⟩
+
+/-- the call read the whole blob and reported success (`ReadAt` returning
+"n bytes and io.EOF" is not counted: the decorator returns io.EOF as the error) -/
+def succeeded (o : MOut) : Prop := o.res.isOk = true ∧ o.eof = false ∧ o.closeErr = none
+
+/-- the methods that read the blob to its end -/
+def reads : Method → Bool
+  | .intoWriter | .readAt _ _ | .toProto _ | .toByteSlice _ | .toChunkReader _ true | .toReader true => true
+  | _ => false
+
+/-- If a reading call succeeds, every task anywhere below the buffer (also
+below stream clones and error handlers) has completed when it returns, and
+none of them failed: a task's error is never dropped when the data was fine. -/
+theorem C15_success_means_tasks_done (b : Buf) (m : Method) (hm : reads m = true) (h : succeeded (call b m)) :
+    ∀ p ∈ taskResults b, p.1 ∈ (call b m).waited ∧ p.2 = none := by
+  obtain ⟨hok, he, hce⟩ := h
+  cases m with
+  | getSizeBytes => simp [reads] at hm
+  | discard => simp [reads] at hm
+  | intoWriter => exact intoWriter_success b hok
+  | readAt off len => exact readAt_success b off len hok he
+  | toProto max => exact toByteSlice_success b max hok
+  | toByteSlice max => exact toByteSlice_success b max hok
+  | toChunkReader off all =>
+    cases all with
+    | false => simp [reads] at hm
+    | true => intro p hp; have := toChunkReader_success b off hok p hp; exact ⟨this.2.1, this.2.2⟩
+  | toReader all =>
+    cases all with
+    | false => simp [reads] at hm
+    | true => exact toReader_success b hok hce
+
+theorem afterTask_res (b : MOut) (t : Nat) (r : Option Nat) (he : b.eof = false) :
+    (afterTask b t r).res = taskRes b.res r := by
+  simp only [afterTask, taskRes]
+  cases hb : b.res with
+  | panic => rfl
+  | err k => rfl
+  | ok d s => simp only [he]; cases r <;> rfl
+
+/-- The task's error is reported exactly if the data itself was fine; an
+error of the data wins. (`ReadAt` ending at end-of-file returns io.EOF and
+drops the task's error: that is what the code does.) -/
+theorem C15_task_error (base : Buf) (dg : Option Nat) (t : Nat) (r : Option Nat) :
+    (∀ max, (toByteSlice (.task base dg t r) max).res = taskRes (toByteSlice base max).res r) ∧
+    (∀ max, (toProto (.task base dg t r) max).res = taskRes (toProto base max).res r) ∧
+    ((intoWriter (.task base dg t r)).res = taskRes (intoWriter base).res r) ∧
+    (∀ off len, (readAt base off len).eof = false →
+      (readAt (.task base dg t r) off len).res = taskRes (readAt base off len).res r) ∧
+    (∀ off, (toChunkReader (.task base dg t r) off true).res = taskRes (toChunkReader base off true).res r) ∧
+    ((toReader base true).res ≠ .panic →
+      (toReader (.task base dg t r) true).res = (toReader base true).res ∧
+      (toReader (.task base dg t r) true).closeErr =
+        (match (toReader base true).closeErr with | some e => some e | none => r)) := by
+  have hbs : ∀ max, (toByteSlice (.task base dg t r) max).res = taskRes (toByteSlice base max).res r := by
+    intro max
+    simp only [toByteSlice]
+    by_cases hp : (toByteSlice base max).res = .panic
+    · simp [afterTask, hp, taskRes, MOut.panic]
+    · exact afterTask_res _ t r (toByteSlice_eof base max hp)
+  refine ⟨hbs, hbs, ?_, ?_, ?_, ?_⟩
+  · simp only [intoWriter]
+    by_cases hp : (intoWriter base).res = .panic
+    · simp [afterTask, hp, taskRes, MOut.panic]
+    · exact afterTask_res _ t r (intoWriter_eof base hp)
+  · intro off len he; simp only [readAt]; exact afterTask_res _ t r he
+  · intro off
+    simp only [toChunkReader, cr]
+    generalize cr base true = b
+    cases b with | mk res wT wC cE =>
+    cases res with
+    | panic => rfl
+    | err k => rfl
+    | ok d s => cases r <;> rfl
+  · intro hnp
+    simp only [toReader, rd] at hnp ⊢
+    generalize rd base true = b at hnp ⊢
+    cases b with | mk res wT wC cE =>
+    cases res with
+    | panic => simp [MOut.panic] at hnp
+    | err k => exact ⟨rfl, rfl⟩
+    | ok d s => exact ⟨rfl, rfl⟩
+
+/-! ### the hypotheses are satisfiable -/
+
+/-- the refresh path of `flatBlobAccess.Get`: `b1, b2 := b.CloneStream(); b1.WithTask(copy b2)`,
+read by the caller through an error handler; the task fails with code 10 -/
+def exProg : BufExpr :=
+  .withErrorHandler (.withTask (.cloneStream (.base (.reader .good)) true .read) (some 10))
+
+example : (exec { d := [8, 1, 8, 2] } exProg (.toByteSlice 100)).map (fun o => (o.res, o.waited))
+    = some (.err 30, [0]) := rfl
+example : (exec { d := [8, 1, 8, 2] } exProg (.toReader true)).map (fun o => (o.res, o.closeErr, o.waited))
+    = some (.ok [8, 1, 8, 2] true, some 10, [0]) := rfl
+/-- a successful read below a stream clone and two tasks -/
+example : ∃ b k, build { d := [8, 1] } (.withTask (.cloneStream (.withErrorHandler
+      (.withTask (.base (.chunks .good)) none)) false .discard) none) 0 = some (b, k) ∧
+    succeeded (call b (.toChunkReader 1 true)) ∧ taskResults b = [(0, none), (1, none)] ∧ spine b = [1] ∧
+    (call b (.toChunkReader 1 true)).waited = [0, 1, 1] := ⟨_, _, rfl, ⟨rfl, rfl, rfl⟩, rfl, rfl, rfl⟩
 
 end BB.C15
